@@ -61,3 +61,135 @@ HARNESS(h_limit) {
   }
   WIT(r.f0 == 0 && IN_d0 > 1000);
 }
+
+/* ---------------- C08 / C06: container heads of the binary encoders denote exactly (kind, declared length), or the encoder refuses ---------------- */
+#ifndef OBJ
+#define OBJ 0
+#endif
+HARNESS(h_head) {
+  HAVOC(IN_len);
+  struct S_struct_2eeev ev[1]; memset(ev, 0, sizeof ev);
+  ev[0].f0 = OBJ ? E_BEGIN_OBJECT_LEN : E_BEGIN_ARRAY_LEN; ev[0].f2 = IN_len;
+  u8* buf = malloc(CAP); ASSUME(buf != 0);
+  struct S_struct_2eeres r; memset(&r, 0, sizeof r);
+  IRC_THROW_ALLOWED = 1;
+  run_enc(0, 1024, 0, ev, 1, buf, &r);
+  if (r.f0 != 0) { WIT(1); return; }                      /* refused with an error code: allowed */
+  u64 n = r.f3; P(n >= 1 && n <= 11, "a container head is 1..11 bytes"); ASSUME(n >= 1 && n <= 11);
+  u64 dec = 0; int ok = 0; u64 used = 0;
+#if FMT == 2   /* RFC 8949: major 4 (array) / 5 (map), argument in the additional information */
+  { u8 ib = buf[0]; u8 info = ib & 0x1f; ok = (ib >> 5) == (OBJ ? 5 : 4);
+    if (info < 24) { dec = info; used = 1; } else if (info <= 27) { unsigned w = 1u << (info - 24); used = 1 + w; for (unsigned i = 0; i < 8; i++) if (i < w) dec = (dec << 8) | buf[1 + i]; } else ok = 0; }
+#elif FMT == 3 /* MessagePack: fixarray 1001xxxx, array16 0xdc, array32 0xdd; fixmap 1000xxxx, map16 0xde, map32 0xdf */
+  { u8 b0 = buf[0];
+    if ((b0 & 0xf0) == (OBJ ? 0x80 : 0x90)) { dec = b0 & 0x0f; used = 1; ok = 1; }
+    else if (b0 == (OBJ ? 0xde : 0xdc)) { dec = ((u64)buf[1] << 8) | buf[2]; used = 3; ok = 1; }
+    else if (b0 == (OBJ ? 0xdf : 0xdd)) { dec = ((u64)buf[1] << 24) | ((u64)buf[2] << 16) | ((u64)buf[3] << 8) | buf[4]; used = 5; ok = 1; } }
+#elif FMT == 4 /* UBJSON: '[' or '{', '#', then a length as i/U/I/l/L big-endian SIGNED (U unsigned), which must be non-negative */
+  { ok = buf[0] == (OBJ ? '{' : '[') && buf[1] == '#'; u8 m = buf[2]; s64 v = -1;
+    if (m == 'U') { v = buf[3]; used = 4; } else if (m == 'i') { v = (s8)buf[3]; used = 4; } else if (m == 'I') { v = (s16)(((u16)buf[3] << 8) | buf[4]); used = 5; }
+    else if (m == 'l') { v = (s32)(((u32)buf[3] << 24) | ((u32)buf[4] << 16) | ((u32)buf[5] << 8) | buf[6]); used = 7; }
+    else if (m == 'L') { u64 x = 0; for (int i = 0; i < 8; i++) x = (x << 8) | buf[3 + i]; v = (s64)x; used = 11; } else ok = 0;
+    if (v < 0) ok = 0; dec = (u64)v; }
+#endif
+  P(ok && used == n && dec == IN_len, "the bytes written for begin_array/begin_object(length) are a well-formed head of that kind whose decoded length equals the declared length (never truncated, wrapped or missing)");
+  WIT(IN_len > 70000);
+}
+
+/* ---------------- C08 K8.1: compact JSON encoder on short grammatical event sequences; the expected text is built by an independent reference ---------------- */
+INPUT_ARR(u32, IN_ek, 2) INPUT_ARR(u64, IN_ev, 2) INPUT_ARR(u8, IN_es, 4) INPUT_ARR(u32, IN_etag, 2) INPUT(u32, IN_obj)
+#define TAG_NONE 0
+static unsigned ref_scalar(u8* o, unsigned p, u32 k, u64 v, const u8* s, u32 tag) {
+  if (k == E_NULL) { o[p++] = 'n'; o[p++] = 'u'; o[p++] = 'l'; o[p++] = 'l'; }
+  else if (k == E_BOOL) { if (v) { o[p++] = 't'; o[p++] = 'r'; o[p++] = 'u'; o[p++] = 'e'; } else { o[p++] = 'f'; o[p++] = 'a'; o[p++] = 'l'; o[p++] = 's'; o[p++] = 'e'; } }
+  else if (k == E_UINT || k == E_INT) { u64 a = v; if (k == E_INT && (s64)v < 0) { o[p++] = '-'; a = (u64)(-(s64)v); }
+    if (a >= 100) o[p++] = '0' + (a / 100) % 10; if (a >= 10) o[p++] = '0' + (a / 10) % 10; o[p++] = '0' + a % 10; }
+  else { o[p++] = '"'; o[p++] = s[0]; o[p++] = s[1]; o[p++] = '"'; }
+  return p;
+}
+HARNESS(h_cjson_seq) {
+  HAVOC_ARR(IN_ek, 2); HAVOC_ARR(IN_ev, 2); HAVOC_ARR(IN_es, 4); HAVOC(IN_obj); ASSUME(IN_obj <= 1);
+  struct S_struct_2eeev ev[5]; memset(ev, 0, sizeof ev); unsigned ne = 0;
+  for (int i = 0; i < 2; i++) { u32 k = IN_ek[i]; ASSUME(k == E_NULL || k == E_BOOL || k == E_UINT || k == E_INT || k == E_STRING);
+    if (k == E_UINT) ASSUME(IN_ev[i] < 1000); if (k == E_INT) ASSUME((s64)IN_ev[i] > -1000 && (s64)IN_ev[i] < 1000); if (k == E_BOOL) ASSUME(IN_ev[i] <= 1);
+    ASSUME(IN_es[2 * i] >= 0x20 && IN_es[2 * i] < 0x7f && IN_es[2 * i] != '"' && IN_es[2 * i] != '\\' && IN_es[2 * i + 1] >= 0x20 && IN_es[2 * i + 1] < 0x7f && IN_es[2 * i + 1] != '"' && IN_es[2 * i + 1] != '\\'); }
+  u8 exp[40]; unsigned p = 0;
+  if (IN_obj) { /* {"ab":v} */
+    ev[ne].f0 = E_BEGIN_OBJECT; ne++; ev[ne].f0 = E_KEY; ev[ne].f3 = 2; ev[ne].f4.a[0] = IN_es[0]; ev[ne].f4.a[1] = IN_es[1]; ne++;
+    ev[ne].f0 = IN_ek[1]; ev[ne].f2 = IN_ev[1]; ev[ne].f3 = 2; ev[ne].f4.a[0] = IN_es[2]; ev[ne].f4.a[1] = IN_es[3]; ne++; ev[ne].f0 = E_END_OBJECT; ne++;
+    exp[p++] = '{'; exp[p++] = '"'; exp[p++] = IN_es[0]; exp[p++] = IN_es[1]; exp[p++] = '"'; exp[p++] = ':'; p = ref_scalar(exp, p, IN_ek[1], IN_ev[1], IN_es + 2, 0); exp[p++] = '}';
+  } else {      /* [v0,v1] */
+    ev[ne].f0 = E_BEGIN_ARRAY; ne++;
+    for (int i = 0; i < 2; i++) { ev[ne].f0 = IN_ek[i]; ev[ne].f2 = IN_ev[i]; ev[ne].f3 = 2; ev[ne].f4.a[0] = IN_es[2 * i]; ev[ne].f4.a[1] = IN_es[2 * i + 1]; ne++; }
+    ev[ne].f0 = E_END_ARRAY; ne++;
+    exp[p++] = '['; p = ref_scalar(exp, p, IN_ek[0], IN_ev[0], IN_es, 0); exp[p++] = ','; p = ref_scalar(exp, p, IN_ek[1], IN_ev[1], IN_es + 2, 0); exp[p++] = ']';
+  }
+  u8* buf = malloc(CAP); ASSUME(buf != 0);
+  struct S_struct_2eeres r; memset(&r, 0, sizeof r);
+  IRC_THROW_ALLOWED = 0;
+  k_enc_cjson(0, 1024, ev, ne, buf, CAP, &r);
+  P(r.f0 == 0, "a grammatical event sequence is encoded without error");
+  P(r.f3 == p, "compact JSON text has exactly the expected length (no missing or extra separators)"); ASSUME(r.f3 == p);
+  int same = 1; for (unsigned i = 0; i < 24; i++) if (i < p && buf[i] != exp[i]) same = 0;
+  P(same, "compact JSON text equals the RFC 8259 text of the pushed events");
+  P(r.f2 == 0 && r.f4 == 0, "depth and container stack are back to empty");
+  WIT(IN_ek[0] == E_STRING && IN_ek[1] == E_INT && (s64)IN_ev[1] < -99 && !IN_obj);
+}
+
+/* ---------------- C06 / C08 K8.2: scalar events through the binary encoders, read back by reference decoders written from the specifications ---------------- */
+/* returns bytes used (0 = ill-formed); kind: 1 uint (val), 2 negative int (val = two's complement), 3 null, 4 false, 5 true, 6 decimal big number text (H) */
+static unsigned ref_dec(const u8* b, u64 n, unsigned* kind, u64* val) {
+#if FMT == 2      /* CBOR RFC 8949 */
+  u8 ib = b[0], mt = ib >> 5, info = ib & 0x1f; u64 a = 0; unsigned used = 1;
+  if (info < 24) a = info; else if (info <= 27) { unsigned w = 1u << (info - 24); used = 1 + w; for (unsigned i = 0; i < 8; i++) if (i < w) a = (a << 8) | b[1 + i]; } else if (mt != 7) return 0;
+  if (mt == 0) { *kind = 1; *val = a; return used; }
+  if (mt == 1) { if (a > 0x7fffffffffffffffULL) return 0; *kind = 2; *val = ~a; return used; }
+  if (mt == 7 && ib == 0xf6) { *kind = 3; return 1; } if (mt == 7 && ib == 0xf4) { *kind = 4; return 1; } if (mt == 7 && ib == 0xf5) { *kind = 5; return 1; }
+  return 0;
+#elif FMT == 3    /* MessagePack */
+  u8 t = b[0]; u64 a = 0;
+  if (t <= 0x7f) { *kind = 1; *val = t; return 1; }
+  if (t >= 0xe0) { *kind = 2; *val = (u64)(s64)(s8)t; return 1; }
+  if (t == 0xc0) { *kind = 3; return 1; } if (t == 0xc2) { *kind = 4; return 1; } if (t == 0xc3) { *kind = 5; return 1; }
+  if (t >= 0xcc && t <= 0xcf) { unsigned w = 1u << (t - 0xcc); for (unsigned i = 0; i < 8; i++) if (i < w) a = (a << 8) | b[1 + i]; *kind = 1; *val = a; return 1 + w; }
+  if (t >= 0xd0 && t <= 0xd3) { unsigned w = 1u << (t - 0xd0); for (unsigned i = 0; i < 8; i++) if (i < w) a = (a << 8) | b[1 + i];
+    s64 v = w == 1 ? (s64)(s8)a : w == 2 ? (s64)(s16)a : w == 4 ? (s64)(s32)a : (s64)a; if (v >= 0) { *kind = 1; *val = (u64)v; } else { *kind = 2; *val = (u64)v; } return 1 + w; }
+  return 0;
+#else             /* UBJSON */
+  u8 t = b[0]; u64 a = 0; s64 v;
+  if (t == 'Z') { *kind = 3; return 1; } if (t == 'F') { *kind = 4; return 1; } if (t == 'T') { *kind = 5; return 1; }
+  if (t == 'U') { *kind = 1; *val = b[1]; return 2; }
+  unsigned w = t == 'i' ? 1 : t == 'I' ? 2 : t == 'l' ? 4 : t == 'L' ? 8 : 0;
+  if (w) { for (unsigned i = 0; i < 8; i++) if (i < w) a = (a << 8) | b[1 + i]; v = w == 1 ? (s64)(s8)a : w == 2 ? (s64)(s16)a : w == 4 ? (s64)(s32)a : (s64)a; if (v >= 0) { *kind = 1; *val = (u64)v; } else { *kind = 2; *val = (u64)v; } return 1 + w; }
+  if (t == 'H' && b[1] == 'U') { unsigned len = b[2]; if (len == 0 || len > 20) return 0; u128 acc = 0; for (unsigned i = 0; i < 20; i++) if (i < len) { u8 c = b[3 + i]; if (c < '0' || c > '9') return 0; acc = acc * 10 + (c - '0'); }
+    if (acc > (u128)0xffffffffffffffffULL) return 0; *kind = 6; *val = (u64)acc; return 3 + len; }
+  return 0;
+#endif
+}
+#ifndef SK
+#define SK E_UINT
+#endif
+HARNESS(h_scalar) {
+  HAVOC_ARR(IN_ev, 2); ASSUME(SK != E_BOOL || IN_ev[0] <= 1);
+#ifdef VLO
+  ASSUME(IN_ev[0] >= VLO && IN_ev[0] <= VHI);   /* value window (decimal digit loops do not scale to the full range, DESIGN 2.5) */
+#endif
+  struct S_struct_2eeev ev[1]; memset(ev, 0, sizeof ev); ev[0].f0 = SK; ev[0].f2 = IN_ev[0];
+  u8* buf = malloc(CAP); ASSUME(buf != 0); memset(buf, 0, CAP);
+  struct S_struct_2eeres r; memset(&r, 0, sizeof r);
+  IRC_THROW_ALLOWED = 1;
+  run_enc(0, 1024, 0, ev, 1, buf, &r);
+  if (r.f0 != 0) { WIT(1); return; }                       /* refused at encode time: allowed for values outside the format's domain */
+  u64 n = r.f3; P(n >= 1 && n <= 24, "a scalar is 1..24 bytes"); ASSUME(n >= 1 && n <= 24);
+  unsigned kind = 0; u64 val = 0; unsigned used = ref_dec(buf, n, &kind, &val);
+  P(used == n, "the bytes written for one scalar event are exactly one well-formed item (nothing missing, nothing extra)");
+  if (SK == E_UINT) P((kind == 1 || kind == 6) && val == IN_ev[0], "an unsigned integer reads back as the same non-negative integer");
+  if (SK == E_INT) P(((s64)IN_ev[0] >= 0 ? kind == 1 : kind == 2) && val == IN_ev[0], "a signed integer reads back as the same integer");
+  if (SK == E_NULL) P(kind == 3, "null reads back as null");
+  if (SK == E_BOOL) P(kind == (IN_ev[0] ? 5 : 4), "a boolean reads back as the same boolean");
+#ifdef VLO
+  WIT(1);
+#else
+  WIT(SK == E_UINT || SK == E_INT ? IN_ev[0] > 0x8000000000000000ULL : 1);
+#endif
+}
